@@ -128,16 +128,28 @@ def impl(case):
     from implutil import build, canon
     data = build(case['form'], case['trajs'])
     k = case['k']
+
+    def intact():
+        # the argument must still denote the input (perm[renamed] reproduces the INPUT)
+        from implutil import tolists
+        import numpy as np
+        cur = data
+        if isinstance(cur, np.ndarray):
+            cur = cur.tolist() if cur.ndim == 2 else [cur.tolist()]
+        elif cur and not isinstance(cur[0], (list, tuple, np.ndarray)):
+            cur = [list(cur)]
+        return tolists(cur) == case['trajs']
     if k == 'shift':
-        return {'ok': canon(mh.shift_data(data, case['old'], case['new']))}
+        r = mh.shift_data(data, case['old'], case['new'])
+        return {'ok': canon(r), 'intact': intact()}
     if k == 'rbi':
         r, perm = mh.rename_by_index(data, return_permutation=True)
         r2 = mh.rename_by_index(data)
-        return {'ok': canon(r), 'perm': canon(perm), 'same': canon(r2) == canon(r)}
+        return {'ok': canon(r), 'perm': canon(perm), 'same': canon(r2) == canon(r), 'intact': intact()}
     if k == 'rbp':
         r, perm = mh.rename_by_population(data, return_permutation=True)
         r2 = mh.rename_by_population(data)
-        return {'ok': canon(r), 'perm': canon(perm), 'same': canon(r2) == canon(r)}
+        return {'ok': canon(r), 'perm': canon(perm), 'same': canon(r2) == canon(r), 'intact': intact()}
     if k == 'unique':
         st, cnt = mh.unique(data, return_counts=True)
         st2 = mh.unique(data)
@@ -190,6 +202,8 @@ def judge(case, ibc, answers):
     for cfg, r in ibc.items():
         def P(kind, what, finding=None):
             probs.append({'kind': kind, 'cfg': cfg, 'what': what, 'finding': finding})
+        if r.get('intact') is False:
+            P('impl-vs-spec', 'the input container was modified by the call, so the result no longer corresponds to it')
         if k == 'shift':
             rd = C.Reader(answers[0])
             model = rd.res(rd.nested)
